@@ -29,6 +29,18 @@ class T:
         return self.rust
 
 
+def G(t, g):
+    """`t` as a field of a generic definition: the declaration says `g`, the instantiation is `t`."""
+    import copy
+    c = copy.copy(t)
+    c.grust = g
+    return c
+
+
+def gr(f):
+    return getattr(f, "grust", f.rust)
+
+
 def prim(name, portable=False):
     return T(name, portable=portable)
 
@@ -86,6 +98,7 @@ class Zoo:
         self.registry = []  # (rust type, name, sized, msg)
         self.count = 0
         self.seen_reg = set()
+        self.generic_names = {}
 
     def fresh(self, kind):
         self.count += 1
@@ -98,7 +111,20 @@ class Zoo:
         self.registry.append((t.rust, t.rust.replace(" ", ""), t.sized, msg))
 
     # -- structs ------------------------------------------------------------
-    def struct(self, fields, sized=True, default=True, portable=False, tuple_=False, msg=False, register=True, comment=""):
+    def generic_name(self, generic, kind):
+        """(name, impl target, emit definition?) for a possibly generic definition"""
+        if generic is None:
+            n = self.fresh(kind)
+            return n, n, True, "", ""
+        key = generic["key"]
+        first = key not in self.generic_names
+        if first:
+            self.generic_names[key] = self.fresh("G" + kind)
+        n = self.generic_names[key]
+        w = f" where {generic['where']}" if generic.get("where") else ""
+        return n, f"{n}<{generic['args']}>", first, f"<{generic['decl']}>", w
+
+    def struct(self, fields, sized=True, default=True, portable=False, tuple_=False, msg=False, register=True, comment="", generic=None):
         assert fields
         for f in fields[:-1]:
             assert f.sized, (fields,)
@@ -107,7 +133,7 @@ class Zoo:
             assert not fields[-1].sized
         default = default and all(f.default for f in fields) and not (tuple_ and not sized)
         portable = portable and all(f.portable for f in fields)
-        name = self.fresh("S" if sized else "U")
+        name, target, emit_def, gdecl, gwhere = self.generic_name(generic, "S" if sized else "U")
         fnames = [f"f{i}" for i in range(len(fields))]
         acc = [str(i) for i in range(len(fields))] if tuple_ else fnames
         attrs = []
@@ -120,16 +146,17 @@ class Zoo:
         src = []
         if comment:
             src.append(f"// {comment}")
-        src.append(f"#[flat({', '.join(attrs)})]" if attrs else "#[flat]")
-        if sized:
-            src.append("#[derive(Clone, PartialEq, PartialOrd)]")
-        if tuple_:
-            src.append(f"pub struct {name}({', '.join('pub ' + f.rust for f in fields)});")
-        else:
-            src.append(f"pub struct {name} {{ {', '.join(f'pub {n}: {f.rust}' for n, f in zip(fnames, fields))} }}")
+        if emit_def:
+            src.append(f"#[flat({', '.join(attrs)})]" if attrs else "#[flat]")
+            if sized:
+                src.append("#[derive(Clone, PartialEq, PartialOrd)]")
+            if tuple_:
+                src.append(f"pub struct {name}{gdecl}({', '.join('pub ' + gr(f) for f in fields)}){gwhere};")
+            else:
+                src.append(f"pub struct {name}{gdecl}{gwhere} {{ {', '.join(f'pub {n}: {gr(f)}' for n, f in zip(fnames, fields))} }}")
         descs = ", ".join(f"<{f.rust} as Shape>::desc()" for f in fields)
         reads = ", ".join(f"self.{a}.read()" for a in acc)
-        src.append(f"impl Shape for {name} {{")
+        src.append(f"impl Shape for {target} {{")
         src.append(f"    fn desc() -> Desc {{ Desc::Struct {{ name: \"{name}\", fields: vec![{descs}], sized: {str(sized).lower()}, default: {str(default).lower()}, portable: {str(portable).lower()} }} }}")
         src.append(f"    fn read(&self) -> Value {{ Value::Struct(vec![{reads}]) }}")
         if sized:
@@ -158,16 +185,16 @@ class Zoo:
                 mk = f"{name}(" + ", ".join(f"<{f.rust} as SizedShape>::make(&f[{i}])" for i, f in enumerate(fields)) + ")"
             else:
                 mk = f"{name} {{ " + ", ".join(f"{n}: <{f.rust} as SizedShape>::make(&f[{i}])" for i, (n, f) in enumerate(zip(fnames, fields))) + " }"
-            src.append(f"impl SizedShape for {name} {{ fn make(v: &Value) -> Self {{ let f = v.fields(); {mk} }} }}")
+            src.append(f"impl SizedShape for {target} {{ fn make(v: &Value) -> Self {{ let f = v.fields(); {mk} }} }}")
         self.items.append("\n".join(src))
-        t = T(name, sized=sized, default=default, portable=portable, constrained=any(f.constrained for f in fields),
+        t = T(target, sized=sized, default=default, portable=portable, constrained=any(f.constrained for f in fields),
               depth=max(f.depth for f in fields) + 1)
         if register:
             self.register(t, msg)
         return t
 
     # -- enums --------------------------------------------------------------
-    def enum(self, variants, tag="u8", sized=True, default=0, portable=False, msg=False, register=True, comment=""):
+    def enum(self, variants, tag="u8", sized=True, default=0, portable=False, msg=False, register=True, comment="", generic=None):
         """variants: list of (style, [fields]) with style in 'unit','tuple','named'.
         default: index of a unit variant or None."""
         c_like = all(st == "unit" for st, _ in variants)
@@ -185,7 +212,7 @@ class Zoo:
         if not sized:
             assert not c_like
         portable = portable and all(f.portable for _, fs in variants for f in fs)
-        name = self.fresh("E" if sized else "N")
+        name, target, emit_def, gdecl, gwhere = self.generic_name(generic, "E" if sized else "N")
         vnames = [f"V{i}" for i in range(len(variants))]
         attrs = []
         if not sized:
@@ -199,19 +226,20 @@ class Zoo:
         src = []
         if comment:
             src.append(f"// {comment}")
-        src.append(f"#[flat({', '.join(attrs)})]" if attrs else "#[flat]")
-        if sized:
-            src.append("#[derive(Clone, PartialEq, PartialOrd)]")
         body = []
         for i, (st, fs) in enumerate(variants):
             d = "#[default] " if default == i else ""
             if st == "unit":
                 body.append(f"{d}{vnames[i]}")
             elif st == "tuple":
-                body.append(f"{d}{vnames[i]}({', '.join(f.rust for f in fs)})")
+                body.append(f"{d}{vnames[i]}({', '.join(gr(f) for f in fs)})")
             else:
-                body.append(f"{d}{vnames[i]} {{ {', '.join(f'g{j}: {f.rust}' for j, f in enumerate(fs))} }}")
-        src.append(f"pub enum {name} {{ {', '.join(body)} }}")
+                body.append(f"{d}{vnames[i]} {{ {', '.join(f'g{j}: {gr(f)}' for j, f in enumerate(fs))} }}")
+        if emit_def:
+            src.append(f"#[flat({', '.join(attrs)})]" if attrs else "#[flat]")
+            if sized:
+                src.append("#[derive(Clone, PartialEq, PartialOrd)]")
+            src.append(f"pub enum {name}{gdecl}{gwhere} {{ {', '.join(body)} }}")
         tagsize = {"u8": 1, "u16": 2, "u32": 4}[tag]
         vdescs = ", ".join("vec![" + ", ".join(f"<{f.rust} as Shape>::desc()" for f in fs) + "]" for _, fs in variants)
         dflt = f"Some({default})" if default is not None else "None"
@@ -224,7 +252,7 @@ class Zoo:
                 return f"{prefix}::{vnames[i]}({', '.join(f'{binder}{j}' for j in range(len(fs)))})"
             return f"{prefix}::{vnames[i]} {{ {', '.join(f'g{j}: {binder}{j}' for j in range(len(fs)))} }}"
 
-        src.append(f"impl Shape for {name} {{")
+        src.append(f"impl Shape for {target} {{")
         src.append(f"    fn desc() -> Desc {{ Desc::Enum {{ name: \"{name}\", tag: {tagsize}, variants: vec![{vdescs}], sized: {str(sized).lower()}, default: {dflt}, portable: {str(portable).lower()} }} }}")
         if sized:
             scrut, refp, mutp, scrut_mut = "self", name, name, "self"
@@ -291,9 +319,9 @@ class Zoo:
                 else:
                     e = f"{name}::{vnames[i]} {{ {', '.join(f'g{j}: {m}' for j, m in enumerate(mks))} }}"
                 arms.append(f"{i} => {e},")
-            src.append(f"impl SizedShape for {name} {{ fn make(v: &Value) -> Self {{ let (idx, f) = match v {{ Value::Var(i, f) => (*i, f), _ => panic!(\"harness: enum value expected\") }}; let _ = f; match idx {{ {' '.join(arms)} _ => panic!(\"harness: bad variant index\") }} }} }}")
+            src.append(f"impl SizedShape for {target} {{ fn make(v: &Value) -> Self {{ let (idx, f) = match v {{ Value::Var(i, f) => (*i, f), _ => panic!(\"harness: enum value expected\") }}; let _ = f; match idx {{ {' '.join(arms)} _ => panic!(\"harness: bad variant index\") }} }} }}")
         self.items.append("\n".join(src))
-        t = T(name, sized=sized, default=default is not None, portable=portable, constrained=True,
+        t = T(target, sized=sized, default=default is not None, portable=portable, constrained=True,
               depth=max([f.depth for _, fs in variants for f in fs] + [0]) + 1)
         if register:
             self.register(t, msg)
@@ -456,6 +484,27 @@ def fixed():
     z.register(flex_vec(unsized_struct, "u16"))
     z.register(flex_vec(test_msg, "u16"), msg=True)
     z.register(flex_vec(flex_vec(U16, "u8"), "u16"))
+
+    # 5b. generic definitions (type and const parameters; the macro cannot take an unsized type parameter as the tail,
+    # so tails are containers of a parameter), several instantiations each
+    def generic_family(a, b, n, key, tail, tail_text):
+        A, B = G(a, "A"), G(b, "B")
+        inst = f"{a.rust}, {b.rust}, {n}"
+        decl = "A: Flat + Default, B: Flat + Default, const N: usize"
+        gs = z.struct([A, G(array(b, n), "[B; N]"), G(phantom(a), "PhantomData<A>"), B], default=(n <= 32),
+                      generic=dict(key="gs", decl=decl, where="[B; N]: Default", args=inst), comment="generic sized struct <A, B, const N>")
+        ge = z.enum([("unit", []), ("tuple", [A, B]), ("named", [G(array(b, n), "[B; N]")]), ("tuple", [G(gs, z.generic_names["gs"] + "<A, B, N>")])],
+                    generic=dict(key="ge", decl=decl, where="[B; N]: Default", args=inst), comment="generic sized enum <A, B, const N>")
+        tl = G(tail(b), tail_text)
+        gu = z.struct([G(array(b, n), "[B; N]"), A, tl], sized=False, default=True,
+                      generic=dict(key="gu" + key, decl=decl, where="[B; N]: Default", args=inst), comment=f"generic unsized struct <A, B, const N>, tail {tail_text}")
+        z.enum([("unit", []), ("tuple", [A, tl]), ("named", [G(array(b, n), "[B; N]")]), ("tuple", [G(gu, z.generic_names["gu" + key] + "<A, B, N>")])], sized=False,
+               generic=dict(key="gn" + key, decl=decl, where="[B; N]: Default", args=inst), comment=f"generic unsized enum <A, B, const N>, tail {tail_text}", msg=(n == 1))
+    generic_family(U8, U64, 3, "v", lambda b: flat_vec(b, "u16"), "FlatVec<B, u16>")
+    generic_family(U32, U8, 0, "v", lambda b: flat_vec(b, "u16"), "FlatVec<B, u16>")
+    generic_family(U64, U16, 1, "x", lambda b: flex_vec(flat_vec(b, "u8"), "u16"), "FlexVec<FlatVec<B, u8>, u16>")
+    generic_family(U16, U128, 2, "x", lambda b: flex_vec(flat_vec(b, "u8"), "u16"), "FlexVec<FlatVec<B, u8>, u16>")
+    generic_family(U128, U16, 5, "v", lambda b: flat_vec(b, "u16"), "FlatVec<B, u16>")
 
     # 6. portable mirrors
     LU16, LU32, LU64 = PORT["le::U16"], PORT["le::U32"], PORT["le::U64"]
